@@ -497,13 +497,13 @@ def _judge(p, cfg, devs, ex, info, dev, threads):
                 continue
             if i + 1 < len(ev) and ev[i + 1][1] == 'enoent':
                 # the device refused this request (ENOENT): the callback gets None, nothing changes on the device
-                cands.sort(key=lambda tr: next(j for j, x in enumerate(ev) if x[1] == 'issue' and x[2] == tr))
+                cands.sort(key=lambda tr: next((j for j, x in enumerate(ev) if x[1] == 'issue' and x[2] == tr), 1 << 30))
                 tr = cands.pop(0)
                 answers[tr] = None
                 applied.append(tr)
                 continue
             # requests with identical bytes from different threads: served in issue order
-            cands.sort(key=lambda tr: next(j for j, x in enumerate(ev) if x[1] == 'issue' and x[2] == tr))
+            cands.sort(key=lambda tr: next((j for j, x in enumerate(ev) if x[1] == 'issue' and x[2] == tr), 1 << 30))
             tr = cands.pop(0)
             req = threads[tr[0]][tr[1]]
             answers[tr] = _apply(ref, req)
